@@ -20,7 +20,7 @@ OPS = list(PREC)
 UNARY_PREC = 5
 
 # characters usable inside a quoted-character literal on a whole source line
-SAFE_CHARS = [c for c in map(chr, range(33, 127)) if c not in "',\"[]{}"]
+SAFE_CHARS = [c for c in map(chr, range(33, 127)) if c not in "'\"[]{}"]
 
 
 class Undefined(Exception):
